@@ -140,7 +140,20 @@ def run_c08(tier, seed):
             desc = "[TLS connection%s] " % (", certificate rule" if rule else "") + desc
         if prep:
             desc = "[authenticators cleared and server restarted before the first connection] " + desc
-        cases.append(dict(line=L.mkcase(steps, pw=pw, conns=len(seqs), app=[b"myapp"], default="mb(76)", tls=tls, rule=rule, prep=prep), pw=pw, hist=hist, desc=desc[:400]))
+        # who implements AUTH: the built-in executor; an application's own AUTH executor on top of the public Server.Auth (same
+        # argument forms - used where every AUTH request has a non-null first argument, so that the argument errors are the
+        # built-in ones); an application's AuthCommandHandler that reports a rejection as an error REPLY with a nil Go error.
+        # The gate and the replies are the same in all three (the model knows one AUTH).
+        via = (None, "exec", "msg")[len(cases) % 3]
+        if via == "exec":
+            import re as _re
+            for ci2, sq in enumerate(seqs):
+                for (label2, mk2, kind2, _x) in sq:
+                    if kind2 == "auth" and not _re.match(rb"^\*[2-9]\r\n\$4\r\n[Aa][Uu][Tt][Hh]\r\n\$\d", mk2()):
+                        via = "msg"
+        if via:
+            desc = "[AUTH implemented by %s] " % ("an application executor calling Server.Auth" if via == "exec" else "an application AuthCommandHandler replying errors as messages") + desc
+        cases.append(dict(line=L.mkcase(steps, pw=pw, conns=len(seqs), app=[b"myapp"], default="mb(76)", tls=tls, rule=rule, prep=prep, authvia=via), pw=pw, hist=hist, desc=desc[:400]))
     # (passwords that look like numbers are passwords all the same: "0042" is not "42")
     pws = [b"secret", b"pw", b"P\r\nw\x00d!", b"0042"] if tier == "quick" else [b"secret", b"pw", b"P\r\nw\x00d!", b"a", b"correct horse battery staple", b"0042", b"+42", b"-0", b"007", b"1e3", b" 7"]
     for pw in pws:
@@ -325,7 +338,16 @@ def run_c13(tier, seed):
         if not seq_reuse:
             for ci in range(len(sent)):
                 steps.append((ci, "e"))
-        line = L.mkcase(steps, pw=pw, conns=len(sent), default="mb(76)", trace=False)
+        # who implements AUTH (see C08): built-in / application executor on Server.Auth / application AuthCommandHandler that rejects
+        # with an error reply and a nil Go error; the connection's authorization is the same in all three
+        via = None
+        if pw is not None:
+            via = (None, "msg", "exec")[len(cases) % 3]
+            if via == "exec" and any(nm.upper() == "AUTH" and (not a or a[0] is None) for sq in sent for nm, a in sq if isinstance(nm, str)):
+                via = "msg"
+            if via:
+                desc = "[AUTH via %s] " % ("application executor" if via == "exec" else "application AuthCommandHandler (error replies)") + desc
+        line = L.mkcase(steps, pw=pw, conns=len(sent), default="mb(76)", trace=False, authvia=via)
         if par:
             line = "par=1 " + line
         cases.append(dict(line=line, pw=pw, sent=sent, par=par,
